@@ -15,7 +15,7 @@ EXPLANATION = (
     "and sounds are sorted with one TandemSorter built from total_cmp on start_time and every pushed object is paired "
     "with exactly one pushed sound (R3); control point vectors are mutated only through the binary-search ControlPoint::add "
     "(R4); no explicit panic API (unwrap/expect/panic!/assert!/unreachable!) in the decoder's call graph (R5); "
-    "from_path/from_bytes/from_str are single delegations to rosu_map with the parameter passed through (R6). Overflow "
+    "from_path/from_bytes/from_str are single delegations to rosu_map with the parameter passed through (R6). R3 also asks that the stable tandem sort is passed on EVERY path through From<BeatmapState> (the mania legacy sort alone does not order an unordered list). Overflow "
     "and bounds Assert terminators are arithmetic and NOT covered; rosu-map's line driver is trusted.")
 
 DECODE_TRAIT = 'rosu_map::decode::DecodeBeatmap'
